@@ -65,7 +65,7 @@ structure State where
   cnHost    : Int := 0        -- host upstream_connection_active
   cnCluster : Int := 0        -- cluster upstream_connection_active
   tasks     : List Task := []  -- OnDestroyStream calls in progress: client, remaining statements
-  liveN     : Nat := 0        -- ghost: requests in flight
+  liveN     : Int := 0        -- ghost: requests admitted minus requests ended (= requests in flight)
   openN     : Nat := 0        -- ghost: open TCP connections
 
 /-- the pool with an arbitrary OnDestroyStream program (the theorems are proved for a decidable class of programs) -/
